@@ -73,8 +73,25 @@ def error_admissible(err, causes, ridx, prog):
     return False, f'{type(err).__name__}{_short(err.args)} is not an admissible cause'
 
 
+def _construct_props(err):
+    """A spurious / wrong engine error of a construct also refutes that construct's property."""
+    name = type(err).__name__
+    return {'RecurrentSubgraphDoesNotHaveResultError': ['C11'], 'OneOfDoesNotHaveResultError': ['C10'],
+            'SwitchCaseDoesNotHaveBranchError': ['C09']}.get(name, [])
+
+
 def check_outcome(obs, ro, ref, cancelled=False):
     """C01 / C05 verdict for one run."""
+    out = _check_outcome(obs, ro, ref, cancelled)
+    err = ro.error if ro.outcome == 'error' else ro.raised
+    if err is not None:
+        for f in out:
+            if f['kind'] in ('error_instead_of_value', 'wrong_error'):
+                f['prop'] = sorted(set(f['prop']) | set(_construct_props(err)))
+    return out
+
+
+def _check_outcome(obs, ro, ref, cancelled=False):
     out = []
     exp = ref.outcome
     ridx = raised_index(obs)
